@@ -956,7 +956,7 @@ def run(ctx):
                 "null patterns; codecs 0,1,2,4,5,6,7; v1/v2 with is_compressed absent/true/false; dictionary fallback and second dictionary page; "
                 "unsupported encodings 6,7,9 must be refused; files with a 'pandas' key-value entry of another writer (agreeing, finer / coarser "
                 "recorded datetime unit, arrow's swapped nullable names, zones, range-index descriptor, columns not named) x v1/v2 x PLAIN/dictionary; "
-                "files whose created_by contains 'fastparquet' in layouts fastparquet never writes (confirmation stream of an open finding).  "
+                "files whose created_by contains 'fastparquet' in layouts fastparquet never writes (created_by is just a string).  "
                 "trivial = empty table; distinct = distinct (layout, table)")
     jobs = gen_jobs(ctx)
     _init()
